@@ -16,6 +16,10 @@ loop or the two passes: the meaning of the events is defined declaratively below
  J6  every absolute line 1 … total of every compiled program translates to its source position (segment boundaries
      included, whether or not code was generated under the line)
  J5  an opened file never gets a file id that a file_info segment written before already uses
+ J7  the textual trace `dump_trace` writes to the log for the same error lists the same active calls, innermost last:
+     `<function>()`, file:line inside the recorded extent, program and object of every recorded call
+ J8  every compile-time diagnostic the generator provoked (`expectce` record: a warning placed on a known line of a known
+     file, main file or include at any nesting) is reported to the master's log_error with that file and that line
 -/
 import NV.C18.Model
 
@@ -61,6 +65,9 @@ inductive Obs where
   | tab (prog : String) (raw : String)
   | dec (prog : String) (runs : List (Nat × String))
   | tra (prog : String) (runs : List (Nat × Option (Nat × Int)))
+  | dt (ret : String) (lines : List String)
+  | dta (entries : List String)
+  | ce (text : String)
   | crash (text : String)
   | loadFail
   | other
@@ -227,6 +234,138 @@ def judgeEhs : List Expect → List EhRec → List String
   | e :: es, r :: rs => judgeEh e r ++ judgeEhs es rs
   | es, rs => [s!"eh-count missing={es.length} extra={rs.length}"]
 
+/-! ## J7: the log text of `dump_trace` -/
+
+/-- one line of `dump_trace` taken apart: `<head>~at~<loc>,~in~program~/<prog>~(object~<ob>)` -/
+structure DtRec where
+  head : String
+  loc : String
+  prog : String
+  ob : String
+deriving Repr, DecidableEq
+
+def parseDtLine (s : String) : Option DtRec :=
+  match s.splitOn "~at~" with
+  | [head, rest] =>
+    match rest.splitOn ",~in~program~/" with
+    | [loc, rest2] =>
+      match rest2.splitOn "~(object~" with
+      | [prog, ob] => some ⟨head, loc, prog, if ob.endsWith ")" then (ob.dropEnd 1).toString else ob⟩
+      | _ => none
+    | _ => none
+  | _ => none
+
+/-- `/file:line` -/
+def parseLoc (loc : String) : Option (String × Int) :=
+  if !loc.startsWith "/" then none else
+  match ((loc.drop 1).toString.splitOn ":").reverse with
+  | l :: (f :: fs) =>
+    match l.toInt? with
+    | some n => some (":".intercalate (f :: fs).reverse, n)
+    | none => none
+  | _ => none
+
+def dtPseudo (d : DtRec) : Bool := d.head == "(catch)" || d.prog == "<function>"
+
+def judgeDtLines (kind : String) (exp : List ExpEnt) (lines : List String) : List String :=
+  let recs := lines.map parseDtLine
+  if recs.any (·.isNone) then [s!"dt-syntax kind={kind}"] else
+  let real := (recs.filterMap id).filter (fun d => !dtPseudo d)
+  if exp.length ≠ real.length then [s!"dt-length kind={kind} expected={exp.length} got={real.length}"] else
+  let rec go (i : Nat) (es : List ExpEnt) (gs : List DtRec) : List String :=
+    match es, gs with
+    | e :: es', g :: gs' =>
+      let wantHead := if e.fn == "<function>" then "(function)" else e.fn ++ "()"
+      (if wantHead ≠ g.head then [s!"dt-entry kind={kind} i={i} field=fn expected={wantHead} got={g.head}"] else []) ++
+      (if e.prog ≠ g.prog then [s!"dt-entry kind={kind} i={i} field=prog expected={e.prog} got={g.prog}"] else []) ++
+      (if !objMatch e.obj ("/" ++ g.ob) then [s!"dt-entry kind={kind} i={i} field=obj expected={e.obj} got=/{g.ob}"] else []) ++
+      (match parseLoc g.loc with
+       | none => [s!"dt-entry kind={kind} i={i} field=loc expected=/{e.file}:{e.lo} got={g.loc}"]
+       | some (f, l) =>
+         (if e.file ≠ f then [s!"dt-entry kind={kind} i={i} field=file expected={e.file} got={f}"] else []) ++
+         (if l < e.lo ∨ e.hi < l then
+            [s!"dt-line kind={kind} i={i} expected={e.lo}-{e.hi} got={l}{if (e.lo - l) % (lineMod : Int) = 0 then " wrap16" else ""}"] else [])) ++
+      go (i + 1) es' gs'
+    | _, _ => []
+  go 0 exp real
+
+def dtsOf (obs : List Obs) : List (List String) := obs.filterMap fun | .dt _ ls => some ls | _ => none
+def dtRetsOf (obs : List Obs) : List String := obs.filterMap fun | .dt r _ => some r | _ => none
+
+/-- J7, return value of `dump_trace`: the name of the object whose `heart_beat` is among the OUTER active calls
+    (the last one), 0 when there is none -/
+def expectedDtRet (e : Expect) : String :=
+  match (e.trace.dropLast.filter (fun t => t.fn == "heart_beat")).getLast? with
+  | some t => (t.obj.drop 1).toString
+  | none => "0"
+
+def judgeDtRets : List Expect → List String → List String
+  | e :: es, r :: rs =>
+    (if expectedDtRet e ≠ r then [s!"dt-ret kind={e.kind} expected={expectedDtRet e} got={r}"] else []) ++ judgeDtRets es rs
+  | _, _ => []
+
+def judgeDts : List Expect → List (List String) → List String
+  | [], [] => []
+  | e :: es, d :: ds => judgeDtLines e.kind e.trace d ++ judgeDts es ds
+  | es, ds => [s!"dt-count missing={es.length} extra={ds.length}"]
+
+/-- J7, lines that follow a frame line when arguments and local variables are printed (`dta`: per frame `F`, then `A` for
+    an "arguments:" line, `L` for a "local variables:" line): a `(catch)` frame has no arguments of its own — anything
+    printed there are stack slots of ANOTHER frame — and a named function always gets its "arguments:" line -/
+def judgeDta (lines : List String) (entries : List String) : List String :=
+  if lines.length ≠ entries.length then [s!"dta-length frames={lines.length} entries={entries.length}"] else
+  let rec go (i : Nat) (ls es : List String) : List String :=
+    match ls, es with
+    | l :: ls', e :: es' =>
+      let head := (l.splitOn "~at~").headD ""
+      (if head == "(catch)" && e != "F" then [s!"dta-catch-args i={i} got={e}"] else []) ++
+      (if head.endsWith "()" && !e.startsWith "FA" then [s!"dta-no-args i={i} fn={head} got={e}"] else []) ++
+      go (i + 1) ls' es'
+    | _, _ => []
+  (go 0 lines entries).take 2
+
+def judgeDtas : List (List String) → List (List String) → List String
+  | d :: ds, e :: es => judgeDta d e ++ judgeDtas ds es
+  | _, _ => []
+
+/-! ## J8: compile-time diagnostics -/
+
+/-- the generator's record of a diagnostic it provoked: file, line, first words of the text (blanks as `_`) -/
+structure ExpectCe where
+  file : String
+  line : Int
+  text : String
+deriving Repr
+
+/-- `<file>_line_<n>:_<text>` as the compiler's `smart_log` formats it -/
+def parseCe (s : String) : Option (String × Int × String) :=
+  match s.splitOn "_line_" with
+  | file :: rest@(_ :: _) =>
+    let r := "_line_".intercalate rest
+    match r.splitOn ":_" with
+    | n :: more@(_ :: _) =>
+      match n.toInt? with
+      | some k => some (file, k, ":_".intercalate more)
+      | none => none
+    | _ => none
+  | _ => none
+
+/-- J8: every provoked diagnostic is reported with its file and line; a report of the same text for the same file on
+    ANOTHER line than any record is a misattribution -/
+def judgeCes (exps : List ExpectCe) (ces : List String) : List String :=
+  if exps.isEmpty then [] else
+  let got := ces.filterMap parseCe
+  -- a record with line -1 fixes file and text only (the text itself then carries the positions that matter)
+  let missing := exps.filter fun e => !(got.any fun g => g.1 == e.file && (e.line == -1 || g.2.1 == e.line) && g.2.2.startsWith e.text)
+  let stray := got.filter fun g =>
+    (exps.any fun e => g.2.2.startsWith e.text) &&
+      !(exps.any fun e => g.1 == e.file && (e.line == -1 || g.2.1 == e.line) && g.2.2.startsWith e.text)
+  (missing.take 1).map (fun e =>
+    let near := got.filter fun g => g.2.2.startsWith e.text && g.1 == e.file
+    let sameFile := got.filter fun g => g.1 == e.file
+    s!"ce-missing file={e.file} line={e.line} text={e.text} reported={match near, sameFile with | g :: _, _ => s!"{g.1}:{g.2.1}" | [], g :: _ => s!"{g.1}:{g.2.1}:{g.2.2}" | [], [] => "-"}") ++
+  (stray.take 1).map (fun g => s!"ce-stray file={g.1} line={g.2.1} text={g.2.2}")
+
 /-- J5: a file that is opened gets a file id that no `file_info` segment written so far uses (this is the
     freshness condition `Fresh` of the round-trip theorem, checked on every real compilation) -/
 def reusedIds (evs : List CEv) : List Nat :=
@@ -258,8 +397,13 @@ def judgeObs : List Obs → List (String × List CEv) → List (String × String
   | _ :: rest, known, tabs => judgeObs rest known tabs
 
 /-- the specification oracle: list of violations (empty = the property held on this run) -/
-def judgeEv (exps : List Expect) (obs : List Obs) : List String :=
+def judgeEv (exps : List Expect) (obs : List Obs) (ces : List ExpectCe := []) : List String :=
   let loadFailed := obs.any fun | .loadFail => true | _ => false
+  if exps.isEmpty && !ces.isEmpty then
+    -- a case about a compile-time ERROR: the program is expected not to load; only J8 (and J4) apply
+    let crashes := obs.filterMap fun | .crash t => some s!"crash {t}" | _ => none
+    if !crashes.isEmpty then crashes.take 1 else judgeCes ces (obs.filterMap fun | .ce t => some t | _ => none)
+  else
   if loadFailed && !(exps.any fun e => e.phase == "load") then
     -- the generated program did not compile: a defect of the generator, not an observation about C18
     ["setup load-failed"]
@@ -267,6 +411,11 @@ def judgeEv (exps : List Expect) (obs : List Obs) : List String :=
     let crashes := obs.filterMap fun | .crash t => some s!"crash {t}" | _ => none
     -- a crash hides the rest of the run: report it alone (J4)
     if !crashes.isEmpty then crashes.take 1
-    else judgeEhs exps (ehsOf obs) ++ judgeObs obs [] []
+    else judgeEhs exps (ehsOf obs) ++ judgeObs obs [] [] ++
+      -- J7 only where the log text was captured (one `dt` per reported error)
+      (if (dtsOf obs).isEmpty then [] else judgeDts exps (dtsOf obs)) ++
+      judgeDtas (dtsOf obs) (obs.filterMap fun | .dta es => some es | _ => none) ++
+      judgeDtRets exps (dtRetsOf obs) ++
+      judgeCes ces (obs.filterMap fun | .ce t => some t | _ => none)
 
 end NV.C18
